@@ -60,6 +60,10 @@ func (t TableKeys) MarshalJSON() ([]byte, error) {
 }
 
 type Op struct {
+	// EmptyStart: a read without start key sends an empty ExclusiveStartKey map instead of none
+	EmptyStart bool `json:"emptyStart,omitempty"`
+	// RetOther: the ReturnValues of a DeleteItem that does not ask for the old item (NONE, or a value the operation has no use for)
+	RetOther string `json:"retOther,omitempty"`
 	// Cancelled: the v2 call gets a context that is already cancelled (the fake never looks at it)
 	Cancelled bool `json:"cancelled,omitempty"`
 	Op    string `json:"op"`
